@@ -418,3 +418,36 @@ Proof.
   rewrite !map_map. f_equal. f_equal; try lia; apply map_ext; intros [];
     unfold note_t, note_with_times, tempo_t, tsig_t, ksig_t, text_t, cc_t, bend_t, sect_t; cbn; f_equal; lia.
 Qed.
+
+(** The composed operation drops ONLY tempo / time-signature / key events that repeat the value in
+    force: every other field is exactly the placed events; the three state lists are sub-sequences of
+    the time-ordered placed events and carry the same value in force at every time. *)
+Lemma concat_drops_only_redundant : forall ps,
+  Forall piece_ok ps ->
+  exists r, concat_pairs ps = Ok r /\
+    s_notes r = placed s_notes note_t ps 0 /\ s_texts r = placed s_texts text_t ps 0 /\
+    s_ccs r = placed s_ccs cc_t ps 0 /\ s_bends r = placed s_bends bend_t ps 0 /\
+    s_sects r = placed s_sects sect_t ps 0 /\
+    (let all := sort_by tp_time (placed s_tempos tempo_t ps 0) in
+     subseq (s_tempos r) all /\
+     forall t, force tp_time tp_qpm None (s_tempos r) t = force tp_time tp_qpm None all t) /\
+    (let all := sort_by ts_time (placed s_tsigs tsig_t ps 0) in
+     subseq (s_tsigs r) all /\
+     forall t, force ts_time (fun e => (ts_num e, ts_den e)) None (s_tsigs r) t =
+               force ts_time (fun e => (ts_num e, ts_den e)) None all t) /\
+    (let all := sort_by ks_time (placed s_ksigs ksig_t ps 0) in
+     subseq (s_ksigs r) all /\
+     forall t, force ks_time (fun e => (ks_key e, ks_mode e)) None (s_ksigs r) t =
+               force ks_time (fun e => (ks_key e, ks_mode e)) None all t).
+Proof.
+  intros ps Hok.
+  destruct (concat_pairs_spec ps Hok) as (r & Hr & C1 & C2 & C3 & C4 & C5 & C6 & C7 & C8 & _).
+  exists r. split; [exact Hr|]. rewrite C1, C2, C3, C4, C5, C6, C7, C8.
+  repeat split; try reflexivity.
+  - apply tidy_tempos_subseq.
+  - intro t. apply tidy_tempos_force.
+  - apply tidy_tsigs_subseq.
+  - intro t. apply tidy_tsigs_force.
+  - apply tidy_ksigs_subseq.
+  - intro t. apply tidy_ksigs_force.
+Qed.
